@@ -26,12 +26,12 @@ PRELUDE = r"""
 (define (%obs x) (write x) (newline))
 (define-syntax %case
   (syntax-rules ()
-    ((_ id expr) (begin (newline) (display "#") (display 'id) (newline)
+    ((_ id expr) (begin (newline) (display "#") (display 'id) (newline) (flush-output-port)
                         (%obs (%try (lambda () expr)))
                         (flush-output-port)))))
 (define-syntax %case*
   (syntax-rules ()
-    ((_ id body ...) (begin (newline) (display "#") (display 'id) (newline)
+    ((_ id body ...) (begin (newline) (display "#") (display 'id) (newline) (flush-output-port)
                             body ...
                             (flush-output-port)))))
 """
